@@ -21,7 +21,7 @@ def validate(trace, module='Trace_Run', cfg=None, timeout=300, env=None):
     """-> dict(accepted, states, reason, rejected_at, event, wall)"""
     cfg = cfg or module
     meta = trace + '.tlcmeta'
-    cmd = ['timeout', str(timeout), 'java', '-XX:+UseParallelGC', '-Xmx2g', '-Xss1g',
+    cmd = ['timeout', str(timeout), 'java', '-XX:+UseSerialGC', '-Xmx3g', '-Xss1g',
            '-Dtlc2.tool.queue.IStateQueue=StateDeque', '-cp', run.TLA_JAR, 'tlc2.TLC', '-workers', '1',
            '-metadir', meta, '-cleanup', '-noGenerateSpecTE', '-config', cfg + '.cfg', module + '.tla']
     e = dict(os.environ, TRACE=trace)
@@ -61,3 +61,55 @@ def validate(trace, module='Trace_Run', cfg=None, timeout=300, env=None):
         res['reason'] = 'action property ' + (m.group(1) or m.group(2))
         return res
     raise run.ToolError('trace validation failed to run on %s:\n%s' % (trace, out[-3000:]))
+
+
+def validate_many(traces, module='Trace_Run', cfg=None, batch=40, workdir=None):
+    """validate many trace files with few JVM starts: traces are concatenated (each starts with its cmd line);
+    a rejection is attributed to the run it falls into and the rest of the batch is re-validated.
+    -> list of verdict dicts in the order of `traces`"""
+    import tempfile
+    out = [None] * len(traces)
+
+    def go(idxs):
+        while idxs:
+            lens = []
+            fd, cat = tempfile.mkstemp(prefix='batch', suffix='.ndjson', dir=workdir or os.path.dirname(traces[idxs[0]]))
+            with os.fdopen(fd, 'wb') as f:
+                for i in idxs:
+                    with open(traces[i], 'rb') as g:
+                        lines = [ln for ln in g.read().splitlines() if ln.strip()]
+                    # a torn last line (abort in the middle of a write) is dropped
+                    if lines:
+                        try:
+                            json.loads(lines[-1])
+                        except ValueError:
+                            lines = lines[:-1]
+                    lens.append(len(lines))
+                    f.write(b'\n'.join(lines) + b'\n')
+            v = validate(cat, module, cfg, timeout=900)
+            os.unlink(cat)
+            if v['accepted']:
+                for i in idxs:
+                    out[i] = dict(v, wall=v['wall'] / len(idxs))
+                return
+            at = v['rejected_at']
+            if at is None:
+                # cannot attribute: fall back to one by one
+                for i in idxs:
+                    out[i] = validate(traces[i], module, cfg)
+                return
+            acc = 0
+            for k, i in enumerate(idxs):
+                if at <= acc + lens[k]:
+                    for j in idxs[:k]:
+                        out[j] = {'accepted': True, 'wall': 0, 'states': 0, 'reason': None, 'rejected_at': None, 'event': None}
+                    out[i] = dict(v, rejected_at=at - acc)
+                    idxs = idxs[k + 1:]
+                    break
+                acc += lens[k]
+            else:
+                raise run.ToolError('cannot attribute rejection at event %s' % at)
+    from concurrent.futures import ThreadPoolExecutor
+    with ThreadPoolExecutor(6) as ex:
+        list(ex.map(go, [list(range(b, min(len(traces), b + batch))) for b in range(0, len(traces), batch)]))
+    return out
